@@ -95,6 +95,16 @@ Theorem C05_timeout_fires : forall w st ops st' bm mid t2 g gi k s,
 Proof. exact group_timeout. Qed.
 Print Assumptions C05_timeout_fires.
 
+(** a child that reported SUCCESS is final for its own reports: any further receipt for it is refused
+    (state error, nothing changes) — in particular a contradictory FAILURE receipt cannot fail the group
+    behind the back of the destination chain that holds the succeeded child *)
+Theorem C05_succeeded_child_final : forall sorted t i g gi r,
+  tm_rec t i = None -> tm_child t i = Some g -> tm_glob t g = Some gi ->
+  child_lookup i (g_children gi) = Some ST_SUCCESS ->
+  tm_report cfg_fixed sorted t i r = Some (TmErr E_STATE).
+Proof. exact succeeded_child_final. Qed.
+Print Assumptions C05_succeeded_child_final.
+
 (** (that the notify map of height h is not touched after the block, i.e. MultiTxCounter of the block is
     exactly this map, is by construction of [exec_block]: [m_multi bm = get_multi (s_ic mid) h].) *)
 
@@ -132,12 +142,28 @@ Proof. split; vm_compute; reflexivity. Qed.
 
 (** the unchanged Report (flag on): on a failure receipt the destination of the already-succeeded
     child is not told *)
-Definition only_ndst_lost : Defects := Build_Defects false false false false false false false true false false.
+Definition only_ndst_lost : Defects := Build_Defects false false false false false false false true false false false.
 Theorem C05_fail_ndst_lost_refuted : prop_on_model 5 only_ndst_lost w_grp q_grp hist_fail_receipt = Some false.
 Proof. vm_compute. reflexivity. Qed.
 
 (** the unchanged addToMultiTxNotifyMap (flag on): children over two destination chains are all filed
     under the chain of the first one *)
-Definition only_dst_first : Defects := Build_Defects false false true false false false false false false false.
+Definition only_dst_first : Defects := Build_Defects false false true false false false false false false false false.
 Theorem C05_multitx_dst_first_refuted : prop_on_model 5 only_dst_first w_grp q_grp hist_fail_begin = Some false.
 Proof. vm_compute. reflexivity. Qed.
+
+(** the unchanged Report (flag on): a child that already reported SUCCESS sends a FAILURE receipt; the
+    group fails, the source rolls everything back, but the destination chain holding the succeeded
+    child is not told.  With the repaired code the contradictory receipt is refused and changes
+    nothing, and the group can still succeed. *)
+Definition only_fail_after_success : Defects := Build_Defects false false false false false false false false false false true.
+Definition hist_contradictory : list item :=
+  [IBlock [greq 1 2 1 0 1 2; greq 1 3 1 0 1 2]; IBlock [rcp 1 2 1 1]; IBlock [rcp 1 2 1 2]; IBlock [rcp 1 3 1 1]].
+Definition q_grp2 : query := Build_query [(1, 2, 1); (1, 3, 1)] [(1, 1, 2)] [] 5.
+Theorem C05_fail_after_success_refuted :
+  prop_on_model 5 only_fail_after_success w_grp q_grp2 hist_contradictory = Some false /\
+  prop_on_model 5 cfg_fixed w_grp q_grp2 hist_contradictory = Some true /\
+  option_map (map (fun ob => (map (fun r => fst (fst r)) (o_rc ob), nth 2 (o_st ob) None)))
+             (run cfg_fixed w_grp q_grp2 state_init hist_contradictory)
+    = Some [([1; 1], Some 0); ([1], Some 0); ([0], Some 0); ([1], Some 3)].
+Proof. split; [|split]; vm_compute; reflexivity. Qed.
